@@ -4,6 +4,7 @@
 import LLFreeV.Model.Wrapper
 import LLFreeV.Proofs.Run
 import LLFreeV.Gen.Consts
+import LLFreeV.Proofs.GenZone
 namespace LLFree.C17
 open LLFree Prog
 
@@ -121,5 +122,47 @@ theorem nvm_recover_accepts (z : Nat) : nvmHeaderOk Gen.metaMagic Gen.metaMagic 
     4094 managed frames. -/
 example : nvmSizeOk ⟨9, 4⟩ 4096 4096 = true ∧ nvmMetaPages ⟨9, 4⟩ 4096 4096 = 1 ∧ nvmManaged ⟨9, 4⟩ 4096 4096 = 4094 := by
   decide
+
+/-- **The wrapper logic of the model is that of the current source.** `ZoneAlloc::{get, put, stats_at}`, the
+    alignment condition of `ZoneAlloc::create` and the size / header / split arithmetic of `NvmAlloc::create` are
+    regenerated from `core/src/wrapper.rs` on every run (`Gen/Zone.lean`: `checked_sub`, `map`, `ok_or`,
+    `transpose`, `?`, `div_ceil` as written; the wrapped allocator's call is the parameter `inner`). For every
+    `inner`, offset and frame they are the frame translation of the model (`Zone.toInner`, shift of the result by the
+    offset, no call of the wrapped allocator below the offset), `create` rejects exactly the offsets that are not a
+    multiple of a tree, and the region test, the header test and the number of managed frames are `nvmSizeOk`,
+    `nvmHeaderOk` and `nvmManaged` of `nvm_layout`. -/
+theorem wrappers_match_source :
+    (∀ (inner : Option Nat → Except Gen.Z.Err (Nat × Nat)) (off : Nat) (frame : Option Nat),
+      Gen.Z.get inner off frame =
+        match frame with
+        | some f =>
+          match Zone.toInner off f with
+          | none => .error .argument
+          | some f' => GenZone.shiftG off (inner (some f'))
+        | none => GenZone.shiftG off (inner none)) ∧
+    (∀ (inner : Nat → Except Gen.Z.Err Unit) (off frame : Nat),
+      Gen.Z.put inner off frame =
+        match Zone.toInner off frame with
+        | none => .error .argument
+        | some f' => inner f') ∧
+    (∀ (inner : Nat → Stats) (off frame : Nat),
+      Gen.Z.statsAt inner off frame = (Zone.toInner off frame).map inner) ∧
+    (∀ treeOrder off, Gen.Z.createRejects treeOrder off = true ↔ off % 2 ^ treeOrder ≠ 0) ∧
+    (Gen.Z.createError = .error .initialization) ∧
+    (∀ (g : Geom) (fs z : Nat),
+      Gen.Z.nvmTooSmall fs (Gen.M.lowerSize (GenTree.tyOf g) g.hugeFrames g.treeFrames z) z = !nvmSizeOk g fs z ∧
+      Gen.Z.nvmManaged fs (Gen.M.lowerSize (GenTree.tyOf g) g.hugeFrames g.treeFrames z) z = nvmManaged g fs z) ∧
+    (∀ hm hf z, Gen.Z.nvmHeaderRejects Gen.metaMagic hm hf z = !nvmHeaderOk Gen.metaMagic hm hf z) :=
+  ⟨GenZone.get_eq, GenZone.put_eq, GenZone.statsAt_eq, GenZone.createRejects_iff, rfl,
+   fun g fs z => by rw [GenTree.lowerSize_eq]; exact ⟨GenZone.nvmTooSmall_eq g fs z, GenZone.nvmManaged_eq g fs z⟩,
+   GenZone.nvmHeaderRejects_eq Gen.metaMagic⟩
+
+/-- Non-vacuity of the generated wrapper: a zone at offset 512 translates target 515 to 3 and shifts the result
+    back; target 7 is rejected without a call of the wrapped allocator (the `inner` here would return frame 0). -/
+example : Gen.Z.get (fun f => .ok (f.getD 0, 0)) 512 (some 515) = .ok (515, 0) ∧
+    Gen.Z.get (fun _ => .ok (0, 0)) 512 (some 7) = .error .argument ∧
+    Gen.Z.put (fun _ => .ok ()) 512 7 = .error .argument ∧
+    Gen.Z.createRejects 11 512 = true ∧ Gen.Z.createRejects 11 4096 = false :=
+  ⟨by rfl, by rfl, by rfl, by decide, by decide⟩
 
 end LLFree.C17
